@@ -5,7 +5,10 @@ package c03
 import (
 	"bytes"
 	"fmt"
+	"io"
 	"math/rand"
+	"net"
+	"os"
 	"strings"
 	"time"
 
@@ -203,22 +206,23 @@ type entry struct {
 }
 
 type trial struct {
-	postClose bool
-	c         *core.Ctx
-	cs        caseSpec
-	tailClose bool
-	rig       *mon.Rig
-	pl        netty.Pipeline
-	lab       *lab
-	m         *model
-	pool      []elem
-	ctxs      []netty.HandlerContext
-	rng       *rand.Rand
-	seq       int // payload tags
-	wops      int
-	wireLen   int
-	maxChain  int
-	dead      bool // stop firing events (watchdog or channel state unknown)
+	postClose   bool
+	stopLastExc bool
+	c           *core.Ctx
+	cs          caseSpec
+	tailClose   bool
+	rig         *mon.Rig
+	pl          netty.Pipeline
+	lab         *lab
+	m           *model
+	pool        []elem
+	ctxs        []netty.HandlerContext
+	rng         *rand.Rand
+	seq         int // payload tags
+	wops        int
+	wireLen     int
+	maxChain    int
+	dead        bool // stop firing events (watchdog or channel state unknown)
 }
 
 func (t *trial) detail(extra map[string]interface{}) map[string]interface{} {
@@ -432,6 +436,36 @@ func (t *trial) routeAll() {
 		}
 		t.fire(e, plan, false)
 	}
+	// panicking handlers under the entry points that promise to turn a panic into an exception event: the exception
+	// is an inbound event like any other (head to tail, wherever the panicking or the issuing handler sits)
+	for r := 0; r < 4+n/2; r++ {
+		var e entry
+		switch k := t.rng.Intn(6); k {
+		case 0:
+			e = main[6] // channel-write
+		case 1:
+			e = main[7] // channel-trigger
+		case 2, 3:
+			e = entry{"ctx-write", kWrite, 1 + t.rng.Intn(n-1)}
+		default:
+			e = entry{"ctx-trigger", kEvent, t.rng.Intn(n - 1)}
+		}
+		plan := make([]act, plen)
+		for i := range plan {
+			plan[i].Fwd = t.rng.Intn(6) != 0
+			switch x := t.rng.Intn(20); {
+			case x < 3:
+				plan[i].Nest = 1
+			case x < 6:
+				plan[i].Nest = 2
+			}
+			plan[i].Panic = t.rng.Intn(4) == 0
+		}
+		t.stopLastExc = true
+		t.fire(e, plan, false)
+		t.stopLastExc = false
+		t.c.Count("panic_plans", 1)
+	}
 	// closing event, last: exception past the last handler (built-in tail) or Channel.Close
 	last := fwdPlan(full)
 	nexc, nina := 0, 0
@@ -483,9 +517,20 @@ func (t *trial) fire(e entry, plan []act, final bool) {
 	}
 	c := t.c
 	t.seq++
-	r := &run{plan: plan, nestW: make([]*wpayload, len(plan)), nestE: make([]*token, len(plan))}
+	r := &run{plan: plan, nestW: make([]*wpayload, len(plan)), nestE: make([]*token, len(plan)), panE: make([]*excTok, len(plan))}
 	nested := false
+	if t.stopLastExc {
+		// the exception events of this run are consumed by the last exception-handling instance (so that they do not close the channel)
+		for _, el := range t.m.els[1 : len(t.m.els)-1] {
+			if el.mask&kExc != 0 {
+				r.stopB = el.b
+			}
+		}
+	}
 	for k, a := range plan {
+		if a.Panic {
+			r.panE[k] = &excTok{t.seq*1000 + 500 + k}
+		}
 		switch a.Nest {
 		case 1:
 			r.nestW[k] = mkWrite(t.rng.Intn(5), 1+t.rng.Intn(40), t.seq*131+k)
@@ -505,7 +550,21 @@ func (t *trial) fire(e entry, plan []act, final bool) {
 		wp = mkWrite(t.rng.Intn(5), sizes[t.rng.Intn(len(sizes))], t.seq)
 		payload = wp.msg
 	case kExc, kInactive:
-		payload = &excTok{t.seq}
+		// the exception value is opaque to routing: plain errors, timeouts, temporary and connection errors all travel alike
+		switch t.rng.Intn(8) {
+		case 0:
+			payload = &timeoutTok{excTok{t.seq}}
+		case 1:
+			payload = fmt.Errorf("c03 read deadline %d: %w", t.seq, os.ErrDeadlineExceeded)
+		case 2:
+			payload = &net.OpError{Op: "read", Net: "mock", Err: os.ErrDeadlineExceeded}
+		case 3:
+			payload = &net.OpError{Op: "read", Net: "mock", Err: fmt.Errorf("c03 reset %d", t.seq)}
+		case 4:
+			payload = fmt.Errorf("c03 eof %d: %w", t.seq, io.EOF)
+		default:
+			payload = &excTok{t.seq}
+		}
 	}
 	s := &sim{m: t.m, r: r}
 	if e.from < 0 {
@@ -515,7 +574,12 @@ func (t *trial) fire(e entry, plan []act, final bool) {
 		if wp != nil {
 			wb = wp.bytes
 		}
-		s.deliver(e.kind, e.from, payload, wb)
+		switch e.name {
+		case "channel-write", "channel-trigger", "ctx-write", "ctx-trigger":
+			s.protected(func() { s.deliver(e.kind, e.from, payload, wb) })
+		default:
+			s.deliver(e.kind, e.from, payload, wb)
+		}
 	}
 	if s.closed && !final {
 		c.Count("events_skipped_would_close", 1)
@@ -569,6 +633,13 @@ func (t *trial) fire(e entry, plan []act, final bool) {
 	c.Count("events_"+e.name, 1)
 	if nested {
 		c.Count("nested_events", 1)
+	}
+	if t.stopLastExc {
+		for _, x := range s.exp {
+			if x.kind == kExc {
+				c.Count("panic_exception_visits", 1)
+			}
+		}
 	}
 	if len(s.exp) > t.maxChain {
 		t.maxChain = len(s.exp)
@@ -709,6 +780,9 @@ func planString(plan []act, upto int) string {
 			sb.WriteByte('W')
 		case 2:
 			sb.WriteByte('T')
+		}
+		if a.Panic {
+			sb.WriteByte('!')
 		}
 	}
 	if len(plan) < upto {
